@@ -56,6 +56,20 @@ func verifyFunctionH(prog *Program, ctr *Contracts, key string, secs int) *FuncR
 			return res
 		}
 		rs := solveAll(cands, secs, false, 5, "")
+		// undecided candidates get a second, longer attempt before they are dropped
+		var again []*Oblig
+		for _, o := range cands {
+			if st := rs[o].Status; st != "unsat" && st != "sat" {
+				again = append(again, o)
+			}
+		}
+		if len(again) > 0 && len(again) <= 6 {
+			for o, r := range solveAll(again, secs*3, false, 6, "") {
+				if r.Status == "unsat" || r.Status == "sat" {
+					rs[o] = r
+				}
+			}
+		}
 		failed := 0
 		for _, o := range cands {
 			if rs[o].Status != "unsat" {
